@@ -34,6 +34,10 @@ func c10(c *Ctx) {
 	c10R6(c)
 	c10R7(c)
 	ruleSandboxExited(c, "C10.R7")
+	ruleCASPublication(c, "C10.R8", "PodENI", map[string]string{
+		"Status.PodLastSeen": "a timestamp; the latest writer winning is the intent",
+		"Labels":             "node label follows the pod; no transition is decided on it",
+	})
 }
 
 // phaseSource resolves the object whose phase is the "from" phase of a store
